@@ -20,6 +20,20 @@ def log(*a):
     print(*a, file=sys.stderr, flush=True)
 
 
+def name_collision(hook, model):
+    """True when two packets of the model get one output file name (strcase.ToSnake collides, e.g.
+    FooBar / foo_bar): the recorded C13 finding 'file-name-collision' makes the Go, Rust and Java
+    output of such a program depend on map iteration order, so it cannot be compared with anything."""
+    try:
+        pk = [p["name"] for p in (model.get("packets") or [])]
+        if len(pk) < 2:
+            return False
+        nm = hook.ask({"op": "names", "idents": pk})["names"]
+        return len(set(nm[x][2] for x in pk)) != len(pk)
+    except Exception:
+        return False
+
+
 def repo_fingerprint():
     """SHA-256 over every Go, module and grammar file of the working tree."""
     h = hashlib.sha256()
